@@ -120,6 +120,63 @@ theorem C03_get_set_other (s : List Byte) (off w off' w' : Nat) (v : BitVec 64)
   · rw [C03_set_frame s off w v hfit hin (off' + i) (by omega)]
   · simp [h]
 
+/-! ## algebraic laws of the setter (all bitwise over the whole object) -/
+
+/-- **Only the low `w` bits of the argument matter** (C's truncating assignment): two values that
+agree below `w` store the same object -/
+theorem C03_set_truncates (s : List Byte) (off w : Nat) (v v' : BitVec 64) (hfit : Fits off w)
+    (hin : (off + w + 7) / 8 ≤ s.length) (hv : ∀ i, i < w → v.getLsbD i = v'.getLsbD i) (j : Nat) :
+    bitAt (set s off w v) j = bitAt (set s off w v') j := by
+  rw [(C03_set_eq_spec s off w v hfit hin).2, (C03_set_eq_spec s off w v' hfit hin).2]
+  unfold specSetBit
+  split
+  · exact hv _ (by omega)
+  · rfl
+
+/-- **Last write wins**: a second store to the same field overwrites the first completely -/
+theorem C03_set_set (s : List Byte) (off w : Nat) (v₁ v₂ : BitVec 64) (hfit : Fits off w)
+    (hin : (off + w + 7) / 8 ≤ s.length) (j : Nat) :
+    bitAt (set (set s off w v₁) off w v₂) j = bitAt (set s off w v₂) j := by
+  have hlen := (C03_set_eq_spec s off w v₁ hfit hin).1
+  rw [(C03_set_eq_spec _ off w v₂ hfit (by rw [hlen]; exact hin)).2, (C03_set_eq_spec s off w v₂ hfit hin).2]
+  unfold specSetBit
+  split
+  · rfl
+  · rename_i h
+    rw [(C03_set_eq_spec s off w v₁ hfit hin).2]
+    unfold specSetBit
+    rw [if_neg h]
+
+/-- **Storing what was read changes nothing** -/
+theorem C03_set_get_id (s : List Byte) (off w : Nat) (hfit : Fits off w)
+    (hin : (off + w + 7) / 8 ≤ s.length) (j : Nat) :
+    bitAt (set s off w (get s off w)) j = bitAt s j := by
+  rw [(C03_set_eq_spec s off w _ hfit hin).2]
+  unfold specSetBit
+  split
+  · rename_i h
+    have hlt : j - off < 64 := by unfold Fits at hfit; omega
+    rw [C03_get_bit s off w _ hfit hlt]
+    have e : off + (j - off) = j := by omega
+    have hw : j - off < w := by omega
+    simp [hw, e]
+  · rfl
+
+/-- **Stores to disjoint fields commute** -/
+theorem C03_set_comm (s : List Byte) (off w off' w' : Nat) (v v' : BitVec 64)
+    (hfit : Fits off w) (hfit' : Fits off' w') (hin : (off + w + 7) / 8 ≤ s.length)
+    (hin' : (off' + w' + 7) / 8 ≤ s.length) (hdis : off' + w' ≤ off ∨ off + w ≤ off') (j : Nat) :
+    bitAt (set (set s off w v) off' w' v') j = bitAt (set (set s off' w' v') off w v) j := by
+  have hlen := (C03_set_eq_spec s off w v hfit hin).1
+  have hlen' := (C03_set_eq_spec s off' w' v' hfit' hin').1
+  rw [(C03_set_eq_spec _ off' w' v' hfit' (by rw [hlen]; exact hin')).2,
+    (C03_set_eq_spec _ off w v hfit (by rw [hlen']; exact hin)).2]
+  unfold specSetBit
+  rw [(C03_set_eq_spec s off w v hfit hin).2, (C03_set_eq_spec s off' w' v' hfit' hin').2]
+  unfold specSetBit
+  by_cases h1 : off ≤ j ∧ j < off + w <;> by_cases h2 : off' ≤ j ∧ j < off' + w' <;> simp [h1, h2]
+  omega
+
 /-! ## const-generic forms (`get_const`, `set_const`, `raw_*_const`), 32- and 64-bit `usize` -/
 
 theorem C03_getConst_eq_get (wb : Nat) (hwb : wb = 32 ∨ wb = 64) (s : List Byte) (off w : Nat)
